@@ -246,6 +246,21 @@ def run_task(task):
                 res["outcome"] = "delete-unreferenced:" + (live_raises or "ok")
                 res["applied"] = "unchanged"
                 res["key"] = None      # the object is gone from the model: do not explore further
+                if live_raises is not None:
+                    res["violations"].append({"sig": {"clause": "delete-of-unreferenced-object-refused", "letter": lc,
+                                                      "exc": live_raises}, "detail": {"object": letter[1]}})
+                else:
+                    # the deleted object is gone: nobody may still report it as a user, and what it referenced must
+                    # be deletable / consistent
+                    gone = m.objs.pop(letter[1])
+                    fw2 = forward_links(m)
+                    seen = set()
+                    for clause, where, detail in link_violations(m, fw2):
+                        if clause == "object-in-two-systems" or (clause, where) in seen:
+                            continue
+                        seen.add((clause, where))
+                        res["violations"].append({"sig": {"clause": "after-delete:" + clause, "where": where, "letter": lc},
+                                                  "detail": {"what": detail, "deleted": letter[1]}})
                 return res
         else:
             try:
@@ -450,6 +465,19 @@ def absorb(t, r, run, stats):
         stats["samples"].append({"history": t["history"], "letter": t["letter"], "outcome": r["outcome"]})
 
 
+def deletion_scenarios():
+    """Make an object unreferenced (and give its own lists duplicates / shared elements), then delete it."""
+    out = []
+    for lst_ in (["s3", "s3"], ["s3", "s1"], ["s1", "s3", "s1"], []):
+        out.append(([["list", "uj_b", "uj_steps", lst_]], ["delete", "uj_b"]))
+    for lst_ in (["j3", "j3"], ["j1", "j3", "j1"], ["j2"]):
+        out.append(([["list", "uj_b", "uj_steps", []], ["list", "s3", "jobs", lst_]], ["delete", "s3"]))
+    out.append(([["link", "up_x", "usage_journey", "uj_b"], ["lop", "uj_x", "uj_steps", "append", ["s_x"]]], ["delete", "uj_x"]))
+    out.append(([["list", "s2", "jobs", ["j2"]], ["list", "s1", "jobs", []]], ["delete", "j1"]))
+    out.append(([["list", "up", "devices", ["d", "d"]], ["list", "up2", "devices", ["d_b"]], ["list", "up", "devices", ["d_b"]]], ["delete", "d"]))
+    return out
+
+
 TIERS = {"quick": {"depth": 2, "cap": 2400, "scheds": "default"}, "thorough": {"depth": 3, "cap": 60000, "scheds": "rev"}}
 
 
@@ -461,6 +489,13 @@ def main(tier):
     w = W.family(FAM)
     scheds = [{}, H.reversed_schedule(w)] if cfg["scheds"] == "rev" else [{}]
     st = explore(tier, cfg["depth"], cfg["cap"], run, scheds)
+    tasks = [{"world": FAM, "perms": p, "history": h, "history_outcomes": ["applied"] * len(h), "letter": l, "arg_kind": "scenario"}
+             for p in scheds for h, l in deletion_scenarios()]
+    results = engine.pmap(tasks)
+    engine.check_results(results, run)
+    for t, r in zip(tasks, results):
+        st["transitions"] += len(t["history"]) + 1
+        absorb(t, r, run, st)
     engine.stop()
     cov = {"states": st["states"], "transitions": st["transitions"], "traces_validated_against_impl": st["transitions"],
            "samples": st["samples"] or [{"letter": ["lop", "s2", "jobs", "append", ["j_x"]]}], "exhaustive": st["capped"] is None,
